@@ -406,6 +406,9 @@ def rules(ctx):
     r3_noise(ctx)
     r4_in_force(ctx)
     r5_std_from_variance(ctx)
+    # the noise updates (R3 / R3b) take sum_dim / wsum_dim(...) with their documented meaning: their bodies are compared with the confirmed forms
+    from ._shared import weighted_helper_forms
+    weighted_helper_forms(ctx, "C04.R3b")
     ctx.trust("torch.mean/std semantics; linearity of masked sums; summaries of leaspy.utils.weighted_tensor helpers (their source is checked by C06.R1)")
     ctx.assume("weights of data variables are 0/1 masks")
 
